@@ -334,6 +334,9 @@ func (e *Engine) pushFrame(s *State, fn *ssa.Function, args []Value, bind []Valu
 		fr.Locals[fi.idx[fv]] = bind[i]
 	}
 	s.Frames = append(s.Frames, fr)
+	if e.Cfg.Verbose && s.InitMode == 0 {
+		s.Trace = append(s.Trace, strings.Repeat(" ", len(s.Frames))+shortFn(fn))
+	}
 	return fr
 }
 
@@ -1195,6 +1198,13 @@ func (e *Engine) valueEq(s *State, a, b Value) *Term {
 		}
 	case *BytesV: // arrays of bytes compare by content; slices only against nil
 		if y, ok := b.(*BytesV); ok {
+			isNilLit := func(v *BytesV) bool { return v.NilT == TTrue && v.T.IsConst() && v.T.SV == "" }
+			if isNilLit(y) {
+				return x.NilT
+			}
+			if isNilLit(x) {
+				return y.NilT
+			}
 			return Eq(x.T, y.T)
 		}
 	case *SliceV:
